@@ -229,8 +229,9 @@ class Outcome:
               "coverage": cov, "assumptions": self.assumptions, "wall_s": round(wall, 2),
               "violations": len(self.violations), "known_findings_hit": [k["signature"] for k in self.known_hits],
               "notes": self.notes}
-        with open(os.path.join(EVID, self.pid + ".json"), "w") as f:
-            json.dump(ev, f, indent=1, default=str)
+        if not getattr(self, "is_replay", False):       # a replay re-judges one case; it is not evidence of coverage
+            with open(os.path.join(EVID, self.pid + ".json"), "w") as f:
+                json.dump(ev, f, indent=1, default=str)
         for k in self.known_hits:
             print("KNOWN-FINDING: property=%s %s" % (self.pid, k.get("what", k.get("signature"))))
         seen = set()
